@@ -437,11 +437,12 @@ def gen_criteria(tier, seed):
         names = NAMES[n]
         for edges in O.all_dags(n, names):
             yield {"nodes": names, "edges": edges}
-    if tier != "quick":
-        rng = O.mk_rng(seed, "c13-crit5")
-        names = NAMES[5]
-        for k in range(600):
-            yield {"nodes": names, "edges": O.random_dag(rng, 5, rng.choice((0.3, 0.5, 0.7)), names)}
+    # five nodes: a descendant of X that is not a child (grand-child blocking a back-door path) needs >= 5 nodes
+    rng = O.mk_rng(seed, "c13-crit5")
+    names = NAMES[5]
+    yield {"nodes": names, "edges": [[names[0], names[1]], [names[0], names[2]], [names[1], names[3]], [names[3], names[2]], [names[2], names[4]]]}
+    for k in range(40 if tier == "quick" else 600):
+        yield {"nodes": names, "edges": O.random_dag(rng, 5, rng.choice((0.3, 0.5, 0.7)), names)}
 
 
 def check_criteria(case):
